@@ -362,11 +362,15 @@ func H_c15_product_t() { c15Product(4, 3) }
 // ---- symbolic predicates: a lazily forked truth table over prefixes
 
 type c15Table struct {
-	keys [][]int
-	vals []bool
+	keys   [][]int
+	vals   []bool
+	maxLen int // > 0: prefixes longer than this are always accepted (bounds the predicate class)
 }
 
 func (t *c15Table) ask(p []int) bool {
+	if t.maxLen > 0 && len(p) > t.maxLen {
+		return true
+	}
 	for i, k := range t.keys {
 		if c15Eq(k, p) {
 			return t.vals[i]
@@ -406,13 +410,15 @@ func c15Standardise(p []int) []int {
 	return out
 }
 
-func c15RPProduct(F, M int) {
+func c15RPProduct(F, M int) { c15RPProductL(F, M, 0) }
+
+func c15RPProductL(F, M, maxLen int) {
 	f := rt.Choice("factors", F+1)
 	n := make([]int, f)
 	for i := range n {
 		n[i] = rt.Choice("n", M+1)
 	}
-	tab := &c15Table{}
+	tab := &c15Table{maxLen: maxLen}
 	it := RestrictedPrefixProduct(tab.ask, n...)
 	all := refProduct(n)
 	got := c15Drain(it, len(all), "RestrictedPrefixProduct")
@@ -427,11 +433,13 @@ func c15RPProduct(F, M int) {
 }
 
 func H_c15_rpproduct_q() { c15RPProduct(2, 3) }
-func H_c15_rpproduct_t() { c15RPProduct(3, 3) }
+func H_c15_rpproduct_t()  { c15RPProduct(3, 2) }
+func H_c15_rpproduct4_t() { c15RPProductL(4, 3, 2) }
 
-func c15RPPerms(N int) {
-	n := rt.Choice("n", N+1)
-	tab := &c15Table{}
+func c15RPPerms(N int) { c15RPPermsL(rt.Choice("n", N+1), 0) }
+
+func c15RPPermsL(n, maxLen int) {
+	tab := &c15Table{maxLen: maxLen}
 	all := refPerms(ones(n))
 	got := c15Drain(RestrictedPrefixPermutations(n, tab.ask), len(all), "RestrictedPrefixPermutations")
 	var want [][]int
@@ -445,11 +453,12 @@ func c15RPPerms(N int) {
 }
 
 func H_c15_rpperms_q() { c15RPPerms(3) }
-func H_c15_rpperms_t() { c15RPPerms(4) }
+func H_c15_rpperms_t() { c15RPPermsL(4, 2) }
 
-func c15Pattern(N int) {
-	n := rt.Choice("n", N+1)
-	tab := &c15Table{}
+func c15Pattern(N int) { c15PatternL(rt.Choice("n", N+1), 0) }
+
+func c15PatternL(n, maxLen int) {
+	tab := &c15Table{maxLen: maxLen}
 	all := refPerms(ones(n))
 	got := c15Drain(PermutationsByPattern(n, tab.ask), len(all), "PermutationsByPattern")
 	var want [][]int
@@ -464,7 +473,7 @@ func c15Pattern(N int) {
 }
 
 func H_c15_pattern_q() { c15Pattern(3) }
-func H_c15_pattern_t() { c15Pattern(4) }
+func H_c15_pattern_t() { c15PatternL(4, 3) }
 
 func c15Topo(N int) {
 	n := rt.Choice("n", N+1)
